@@ -152,7 +152,41 @@ pub fn op(i: usize) -> String {
 
 /// Child mode: `ohmc _C18 <i> <j> …` executes the operations in order and prints one JSON line per
 /// operation: {"op": i, "obs": "..."}.
+/// `Country::try_from_coords` on a 3-degree grid (every cell of the embedded 6-degree boundary raster is
+/// hit at its centre and on its edges) and a few interior points of large territories: the answer must be
+/// a function of the coordinates — the same on every call, in every thread and in a fresh process.
+pub fn country_grid() -> Vec<(f64, f64, String)> {
+    let mut out = Vec::new();
+    let mut lat = -87.0;
+    while lat <= 87.0 {
+        let mut lon = -177.0;
+        while lon <= 177.0 {
+            if let Some(c) = Coordinates::new(lat, lon) {
+                out.push((lat, lon, format!("{:?}", Country::try_from_coords(c))));
+            }
+            lon += 3.0;
+        }
+        lat += 3.0;
+    }
+    for (lat, lon) in [(72.5796, -38.4592), (75.0, -42.0), (64.2, -51.7), (78.2, 15.6), (22.3, 114.2), (18.2, -66.5), (60.2, 20.0), (62.0, -6.8), (-21.1, 55.5), (46.2, 6.1)] {
+        if let Some(c) = Coordinates::new(lat, lon) {
+            out.push((lat, lon, format!("{:?}", Country::try_from_coords(c))));
+        }
+    }
+    out
+}
+
+pub const OP_GRID: usize = 1000;
+
 pub fn child(args: &[String]) {
+    if args.first().map(|a| a == "1000").unwrap_or(false) {
+        let obs = match catch(|| country_grid().iter().map(|(_, _, c)| c.clone()).collect::<Vec<_>>().join(",")) {
+            Ok(s) => s,
+            Err(p) => format!("PANIC {} at {}", p.msg, p.loc),
+        };
+        println!("{}", json!({"op": OP_GRID, "obs": obs}));
+        return;
+    }
     for a in args {
         let Ok(i) = a.parse::<usize>() else { continue };
         let obs = match catch(|| op(i)) {
@@ -210,6 +244,33 @@ pub fn run(cfg: &Cfg) -> Outcome {
     for (i, r) in reference.iter().enumerate() {
         if r.starts_with("PANIC") {
             acc.violate(Violation::new("operation_panics_alone", vec![], json!({"ops": [i]}), format!("op {i} alone: {r}")));
+        }
+    }
+    // country lookup on the whole grid: fresh process vs. repeated calls here vs. four threads
+    match run_child(&[OP_GRID]) {
+        Ok(v) if v.len() == 1 && !v[0].1.starts_with("PANIC") => {
+            let reference_grid: Vec<String> = v[0].1.split(',').map(|s| s.to_string()).collect();
+            let mut runs: Vec<Vec<(f64, f64, String)>> = (0..3).map(|_| country_grid()).collect();
+            let threads: Vec<_> = (0..4).map(|_| std::thread::spawn(country_grid)).collect();
+            for t in threads {
+                if let Ok(g) = t.join() {
+                    runs.push(g);
+                }
+            }
+            for (ri, g) in runs.iter().enumerate() {
+                acc.add("country_grid_lookups", g.len() as u64);
+                acc.add("evaluations", g.len() as u64);
+                let bad = g.iter().zip(&reference_grid).find(|((_, _, c), r)| c != *r);
+                match bad {
+                    None if g.len() == reference_grid.len() => acc.add("traces_validated_against_impl", 1),
+                    None => acc.violate(Violation::new("country_grid_length_differs", vec![], json!({"ops": [OP_GRID]}), format!("{} grid points here, {} in a fresh process", g.len(), reference_grid.len()))),
+                    Some(((lat, lon, c), r)) => acc.violate(Violation::new("country_lookup_not_a_function_of_the_coordinates", vec![], json!({"ops": [OP_GRID]}), format!("Country::try_from_coords({lat}, {lon}) = {c} in {} #{ri}, {r} in a fresh process", if ri < 3 { "sequential sweep" } else { "thread" }))),
+                }
+            }
+        }
+        other => {
+            eprintln!("cannot obtain the reference country grid: {other:?}");
+            std::process::exit(2);
         }
     }
     let mut outcomes: Vec<BTreeSet<String>> = (0..N_OPS).map(|i| [reference[i].clone()].into_iter().collect()).collect();
